@@ -167,7 +167,21 @@ def _run(tier, seed, t0, REPO):
                 except TypeCheckException as e:
                     errs.append('extension %s is not well-typed: %s' % (getattr(ext, 'name', ext), str(e)[:100]))
                 except theory.TheoryException as e:
+                    if origin == 'generated':
+                        # the theory refuses the extension (e.g. an overloaded constant at a type with type
+                        # variables): nothing is added, which is an acceptable end of an adversarial item
+                        errs.append('REFUSED')
+                        break
                     errs.append('extension %s rejected: %s' % (getattr(ext, 'name', ext), str(e)[:100]))
+            else:
+                # everything was added: a new instance of an overloaded constant must not overlap the others
+                for ext in exts:
+                    if isinstance(ext, extension.Constant) and saved.is_overload_const(ext.name):
+                        if tvars_of_type(ext.T):
+                            errs.append('instance %s :: %s of the overloaded constant was added although its type has '
+                                        'type variables (overlaps the other instances)' % (ext.name, ext.T))
+            if 'REFUSED' in errs:
+                errs = []
             if then is not None and not errs:
                 errs.extend(then())
         finally:
@@ -279,7 +293,7 @@ def _run(tier, seed, t0, REPO):
     body_ok = ['x + y', 'x', '0', 'x * x + 1', 'if x = 0 then y else x']
     lhs_forms = [('d1 x y', "nat => nat => nat"), ('d1 x x', "nat => nat => nat"), ('d1 x 0', "nat => nat => nat"),
                  ('d1 (x + 1) y', "nat => nat => nat"), ('d1 x', "nat => nat"), ('d1', "nat"), ('d1 x y', "nat => nat => bool")]
-    rhs_forms = ['x + y', 'x + z', 'x', '0', 'd1 x y + 1', 'd1 y x', '~(d1 x y)', 'x = y', 'card (UNIV::\'a set)',
+    rhs_forms = ['x + y', 'x + z', 'x', '0', '?w', 'x + ?w', 'd1 x y + 1', 'd1 y x', '~(d1 x y)', 'x = y', 'card (UNIV::\'a set)',
                  '(!u::\'a. !v. u = v)', 'if x = 0 then 1 else d1 (x - 1) y', 'y + y', 'd1 x', 'd1',
                  'length ([]::\'b list)', '(?u::\'a. True)' if False else '(?u::\'a. u = u)']
     poly = [('p1 (u::\'a)', "'a => bool", '!v::\'a. v = u'), ('p1 (u::\'a)', "'a => bool", '!v::\'b. v = v'),
@@ -287,7 +301,9 @@ def _run(tier, seed, t0, REPO):
             ('p1 (u::\'a) (w::\'a)', "'a => 'a => bool", 'u = w'), ('p1 (u::\'a) (u::\'a)', "'a => 'a => bool", 'u = u'),
             ('p1 (u::\'a)', "'a => bool", 'p1 u'), ('p1 (u::\'a)', "'a => bool", '~(p1 u)'),
             ('p1 (u::\'a)', "'a => bool", 'p1 (0::nat)'), ('p1 (u::nat)', "nat => bool", '~(p1 u)')]
-    overloaded = [('plus (x::bool) y', "bool => bool => bool", 'x | y'),
+    overloaded = [('plus (x::\'a) y', "'a => 'a => 'a", 'x'), ('zero', "'a", 'SOME u::\'a. u = u'),
+                  ('plus (x::\'a list) y', "'a list => 'a list => 'a list", 'x'),
+                  ('plus (x::bool) y', "bool => bool => bool", 'x | y'),
                   ('plus (x::bool) y', "bool => bool => bool", '~(plus x y)'),
                   ('plus (x::bool) y', "bool => bool => bool", '(plus (0::nat) 0 = 0) & x & y'),
                   ('zero', "bool", 'False' if False else '~(zero::bool)'), ('zero', "bool", 'true')]
@@ -342,6 +358,10 @@ def _run(tier, seed, t0, REPO):
             {'name': 'Box1', 'type': "'a => 'a box1", 'args': ['v']},
             {'name': 'NatBox1', 'type': "nat box1 => 'a box1", 'args': ['w']}]},
         {'ty': 'type.ind', 'name': 'unit1', 'args': [], 'constrs': [{'name': 'Unit1', 'type': 'unit1', 'args': []}]},
+        {'ty': 'type.ind', 'name': 'act1', 'args': ['a'], 'constrs': [
+            {'name': 'Skip1', 'type': "'a act1", 'args': []},
+            {'name': 'Upd1', 'type': "('a => 'a) => 'a act1", 'args': ['f']},
+            {'name': 'Seq1', 'type': "'a act1 => (nat => 'a act1) => 'a act1", 'args': ['c', 'k']}]},
         {'ty': 'type.ind', 'name': 'pair1', 'args': ['a', 'b'], 'constrs': [
             {'name': 'MkPair1', 'type': "'a => 'b => ('a, 'b) pair1", 'args': ['x', 'y']}]},
         {'ty': 'def.ind', 'name': 'dbl1', 'type': 'nat => nat', 'rules': [{'prop': 'dbl1 0 = 0'},
